@@ -138,7 +138,7 @@ func HaproxyEndpointFormat(
 	requirements *stream_types.ProcessorRequirement,
 ) *HAProxyEndpointData {
 	log.Trace().Msgf("Original URL: %v", url)
-	url = strings.ReplaceAll(url, ".", `\.`)
+	url = escapeRegexLiterals(url)
 	formattedURL := url
 	wildcardLiteral := "/*"
 	var hasWildcard bool
@@ -160,6 +160,36 @@ func HaproxyEndpointFormat(
 		Endpoint:     result,
 		Requirements: requirements,
 	}
+}
+
+// escapeRegexLiterals turns the configured URL into a regular expression fragment: every
+// literal part is matched literally (all regex metacharacters escaped, not only the dot)
+// and every parameter part ({name}, in the host as well as in the path) matches one
+// non-empty part. A trailing wildcard part is left for the caller to translate.
+func escapeRegexLiterals(url string) string {
+	host, path := url, ""
+	if pathStart := strings.Index(url, "/"); pathStart >= 0 {
+		host, path = url[:pathStart], url[pathStart:]
+	}
+	hostParts := strings.Split(host, ".")
+	for i, part := range hostParts {
+		hostParts[i] = escapeURLPart(part, `[^/.]+`)
+	}
+	pathParts := strings.Split(path, "/")
+	for i, part := range pathParts {
+		if part == "*" && i == len(pathParts)-1 {
+			continue
+		}
+		pathParts[i] = escapeURLPart(part, `[^/]+`)
+	}
+	return strings.Join(hostParts, `\.`) + strings.Join(pathParts, "/")
+}
+
+func escapeURLPart(part, parameterRegex string) string {
+	if len(part) > 2 && strings.HasPrefix(part, "{") && strings.HasSuffix(part, "}") {
+		return parameterRegex
+	}
+	return regexp.QuoteMeta(part)
 }
 
 func ManageHAProxyEndpoints(haproxyEndpoints *HAProxyEndpointsRequest) error {
